@@ -254,3 +254,35 @@ impl Family for FSuperLike {
         root
     }
 }
+
+
+/// `main` is a function of the root module like any other: a call to it (static, or through a
+/// function value) compiles to a jump to a label that exists (the programs stop with VarNotFound
+/// before the call is reached; the structural check is what matters here).
+pub struct FCallMain;
+
+impl Family for FCallMain {
+    fn name(&self) -> &'static str {
+        "F-call-main"
+    }
+    fn len(&self) -> u64 {
+        4
+    }
+    fn case(&self, idx: u64) -> Module {
+        let dynamic = idx % 2 == 1;
+        let from_module = idx / 2 == 1;
+        let the_call = if dynamic { C::DynCall(b(C::Function("main".into())), vec![]) } else { call("main", vec![]) };
+        let f = func(&[], vec![native("log", vec![s("ran:f")]), sg("_sink", the_call), C::Return(b(int(1)))]);
+        let main = func(&[], vec![native("log", vec![s("ran:main")]), sg("depth", bin(BinOp::Add, rv("depth"), int(1))), C::IfTrue(b(bin(BinOp::Less, rv("depth"), int(2))), b(sg("_sink", call(if from_module { "a.f" } else { "f" }, vec![]))))]);
+        let mut root = Module::default();
+        root.functions.push(("main".into(), main));
+        if from_module {
+            let mut a = Module::default();
+            a.functions.push(("f".into(), f));
+            root.submodules.push(("a".into(), a));
+        } else {
+            root.functions.push(("f".into(), f));
+        }
+        root
+    }
+}
